@@ -2682,6 +2682,83 @@ def container_iter_lemmas(F, rep, rule="L-base-iter", conts=("slice", "string"),
                         return
                 rep.holds(rule, key, "`for b in &x` yields the %d bases in order and then ends" % ln, nontrivial=False)
             guarded(rep, rule, key, "iter", f)
+        # an iterator that overrides nth / size_hint: scripted interleavings (a steps, one skip of n, two more steps) on long inputs — skips
+        # inside a storage word, across one, by a whole word and more, and past the end
+        meths = {r["method"]: r["key"] for r in roots if r.get("trait") == "Iterator" and r.get("of") == cty and r["key"] in F.insts}
+        if "nth" in meths or "size_hint" in meths:
+            long_cases = [(70, 0, 70, False)] if cname == "string" else [(70, 1, 66, False), (70, 1, 66, True), (70, 32, 38, False)]
+            for nb, st, ln, rc in long_cases:
+                key = "%s/iter-skips/backing=%d/start=%d/len=%d/rc=%d" % (cname, nb, st, ln, int(rc))
+
+                def g(nb=nb, st=st, ln=ln, rc=rc, key=key, cname=cname, ikey=ikey, nkey=nkey, meths=meths):
+                    def fresh():
+                        back = Cell(dt.sym("s", nb), "back")
+                        if cname == "slice":
+                            vals = {"dna_string": Ref(back), "start": usize(st), "length": usize(ln), "is_rc": Int(8, False, val=int(rc), kind="bool")}
+                            me = Ref(Cell(Adt(SLICE_T, 0, [vals[k] for k in order]), "self"))
+                        else:
+                            me = Ref(back)
+                        itv, _ = run_inst(F, ikey, [me])
+                        return Cell(itv, "iter")
+
+                    def check(r, i, what):
+                        """r must be Some(base i) for i < ln, None otherwise"""
+                        if not (isinstance(r, Adt) and r.variant in (0, 1)):
+                            rep.inconclusive(rule, key, "%s returns %r" % (what, r))
+                            return False
+                        if i >= ln:
+                            if r.variant != 0:
+                                rep.violated(rule, key, "%s yields a base although only %d bases exist" % (what, ln), witness={"kind": "iter"})
+                                return False
+                            return True
+                        if r.variant != 1:
+                            rep.violated(rule, key, "%s ends the iteration although base %d of %d exists" % (what, i, ln), witness={"kind": "iter"})
+                            return False
+                        e = r.fields[0]
+                        lo, hi = view_base_bits("s", st, ln, rc, i)
+                        if not isinstance(e, Int) or any(b is TOP for b in e.getbits()):
+                            rep.inconclusive(rule, key, "%s: item %r" % (what, e))
+                            return False
+                        if list(e.getbits()) != [lo, hi] + [ZERO] * (len(e.getbits()) - 2):
+                            rep.violated(rule, key, "%s yields %s|%s; specified: base %d of the %s = %s|%s" % (
+                                what, bv.t_str(e.getbits()[1]), bv.t_str(e.getbits()[0]), i, "view" if cname == "slice" else "string", bv.t_str(hi), bv.t_str(lo)),
+                                witness={"kind": "iter", "step": i})
+                            return False
+                        return True
+                    n_scripts = 0
+                    if "size_hint" in meths:
+                        for a_ in (0, 3):
+                            cell = fresh()
+                            for _ in range(a_):
+                                run_inst(F, nkey, [Ref(cell)])
+                            r, _ = run_inst(F, meths["size_hint"], [Ref(cell)])
+                            rep.evaluations += 1
+                            lo_, hi_ = (r.fields[0], r.fields[1]) if isinstance(r, Tup) and len(r.fields) == 2 else (None, None)
+                            okb = isinstance(lo_, Int) and lo_.is_conc() and lo_.val <= ln - a_ and isinstance(hi_, Adt) and \
+                                (hi_.variant == 0 or (isinstance(hi_.fields[0], Int) and hi_.fields[0].is_conc() and hi_.fields[0].val >= ln - a_))
+                            if not okb:
+                                rep.violated(rule, key, "size_hint after %d steps is %r; %d bases remain" % (a_, r, ln - a_), witness={"kind": "iter"})
+                                return
+                    if "nth" in meths:
+                        for a_ in (0, 1, 31, 33):
+                            for n_ in (0, 1, 30, 31, 32, 33, ln, (1 << 64) - 1):
+                                cell = fresh()
+                                n_scripts += 1
+                                for _ in range(a_):
+                                    run_inst(F, nkey, [Ref(cell)])
+                                r, _ = run_inst(F, meths["nth"], [Ref(cell), usize(n_)])
+                                rep.evaluations += 1
+                                tgt = a_ + n_
+                                if not check(r, tgt, "after %d steps, nth(%d)" % (a_, n_)):
+                                    return
+                                cur = min(tgt + 1, ln) if tgt < ln else ln
+                                for j_ in range(2):
+                                    r, _ = run_inst(F, nkey, [Ref(cell)])
+                                    if not check(r, cur, "after %d steps and nth(%d), next() number %d" % (a_, n_, j_ + 1)):
+                                        return
+                                    cur = min(cur + 1, ln)
+                    rep.holds(rule, key, "overridden nth / size_hint agree with stepping (%d scripted skips)" % n_scripts, nontrivial=False)
+                guarded(rep, rule, key, "iter", g)
 
 
 
